@@ -3,6 +3,7 @@ import NemoVerif.Models.Dnf
 import NemoVerif.Models.GroupExpand
 import NemoVerif.Models.GroupVM
 import NemoVerif.Models.GroupExpandAwait
+import NemoVerif.Models.GroupExpandWhen
 
 namespace NemoVerif.Drive.C07
 open Lean NemoVerif NemoVerif.Drive NemoVerif.Dnf NemoVerif.GroupExpand
@@ -52,6 +53,7 @@ def primToJson : Prim → Json
   | .matchFin r => Json.arr #[.str "matchFin", nat r]
   | .beginScope sc => Json.arr #[.str "beginScope", nat sc]
   | .endScope sc => Json.arr #[.str "endScope", nat sc]
+  | .send n => Json.arr #[.str "send", nat n]
 
 def primOfJson (j : Json) : Except String Prim := do
   let a ← j.getArr?
@@ -75,6 +77,7 @@ def primOfJson (j : Json) : Except String Prim := do
   | "matchFin" => pure (.matchFin (← arg.getNat?))
   | "beginScope" => pure (.beginScope (← arg.getNat?))
   | "endScope" => pure (.endScope (← arg.getNat?))
+  | "send" => pure (.send (← arg.getNat?))
   | _ => pure .other
 
 def optClausesToJson : Option Clauses → Json
@@ -112,6 +115,22 @@ def handle (op : String) (j : Json) : Except String Json := do
       ("dnf", clausesToJson (toDnf (normalize g))),
       ("readback", optClausesToJson (readBackAwait real)),
       ("distinct", .bool (labelsDistinct real))])
+  | "expandWhen" =>
+    -- `when g_0 <body_0> or when g_1 <body_1> … [else <els>]`; `flows` = the atoms that are flows (the others are events)
+    let cs ← (← (← j.getObjVal? "cases").getArr?).toList.mapM fun c => do
+      let g ← gOfJson (← c.getObjVal? "g")
+      let body ← (← (← c.getObjVal? "body").getArr?).toList.mapM primOfJson
+      pure (g, body)
+    let els ← match j.getObjVal? "else" with
+      | .ok (.arr a) => do pure (some (← a.toList.mapM primOfJson))
+      | _ => pure none
+    let flows ← natsOfJson (← j.getObjVal? "flows")
+    let real ← (← (← j.getObjVal? "prims").getArr?).toList.mapM primOfJson
+    let mine := expandWhen (fun a => flows.contains a) cs els
+    let rb := readBackWhen (cs.map (·.2)) els real
+    pure (Json.mkObj [("prims", Json.arr (mine.map primToJson).toArray),
+      ("dnf", Json.arr (cs.map fun c => clausesToJson (toDnf (normalize c.1))).toArray),
+      ("readback", match rb with | none => .null | some ds => Json.arr (ds.map clausesToJson).toArray)])
   | "vm" =>
     -- head-level machine on the clauses of `normalize g`: per sequence (with its recorded tie-breaks) the marker flags
     -- and the heads (position, status) after every event
